@@ -22,10 +22,7 @@ theorem spread_ok : TblOk 5 spreadIcdf ∧ zeroPos spreadIcdf = 3 := by
 theorem trim_ok : TblOk 7 trimIcdf ∧ zeroPos trimIcdf = 10 := by
   refine ⟨by simp [TblOk, Decr, trimIcdf], by decide⟩
 
-theorem frozen_eprob : CeltSymsFrozen.eProbModel = Gen.CeltTables.eProbModel := by
-  have h := celtFrozenEq_true
-  simp only [celtFrozenEq, Bool.and_eq_true, decide_eq_true_eq] at h
-  exact h.1.1.1.1.1.1.1.1.1.1
+theorem frozen_eprob : CeltSymsFrozen.eProbModel = Gen.CeltTables.eProbModel := frozen_eProbModel
 
 /-- Every value of `tf_select_table[LM][0..8)` lies in `[-3, 3]`. -/
 theorem tfTable_range : ∀ LM, LM < 4 → ∀ idx, idx < 8 → -3 ≤ tfTable LM idx ∧ tfTable LM idx ≤ 3 := by decide
